@@ -611,8 +611,8 @@ def m0_slices():
     P = Prim
     m.add(OpaqueDef("Sl"))
     m.add(EnumDef("Er", [("Bad", 1), ("Worse", -1)]))
-    m.add(StructDef("Views", [("a", Slice(P("u16"), "ref", "diplomat")), ("n", P("u8")), ("s", Str("utf8", "ref", "diplomat")),
-                              ("t", Str("utf16", "ref", "diplomat")), ("u", Str("unval8", "ref", "diplomat"))]))
+    m.add(StructDef("Views", [("a", Slice(P("u16"), "ref", "diplomat")), ("n", P("u8")), ("s", Str("utf8", "ref", "diplomat"))]))
+    m.add(StructDef("Views2", [("t", Str("utf16", "ref", "diplomat")), ("k", P("i32")), ("u", Str("unval8", "ref", "diplomat"))]))
     prims = [p for p in ALL_PRIMS if p not in ("DiplomatChar", "DiplomatByte")]
     for p in prims:
         m.method("Sl", "sl_%s" % p, None, [("x", Slice(P(p), "ref"))], P("usize"))
@@ -632,6 +632,7 @@ def m0_slices():
     m.method("Sl", "ret_str", None, [("x", Str("unval8"))], Str("unval8"), ret_from=PassThrough("x", sub=True))
     m.method("Sl", "ret_str16", None, [("x", Str("utf16"))], Str("utf16"), ret_from=PassThrough("x"))
     m.method("Sl", "views", None, [("v", StructT("Views", borrowed=True))], StructT("Views", borrowed=True), ret_from=PassThrough("v"))
+    m.method("Sl", "views2", None, [("v", StructT("Views2", borrowed=True))], StructT("Views2", borrowed=True), ret_from=PassThrough("v"))
     m.method("Sl", "opt_slice", None, [("x", Opt(Slice(P("u8"), "ref"), "std")), ("y", Opt(Str("utf8"), "std"))], Opt(P("u8"), "std"))
     m.method("Sl", "opt_own", None, [("x", Opt(Slice(P("u8"), "box"), "std")), ("k", P("u8"))], None)
     m.method("Sl", "res_slice", None, [("x", Slice(P("f64"), "ref"))], Res(Slice(P("f64"), "ref"), EnumT("Er")), ret_from=None)
